@@ -1,12 +1,30 @@
 """C18, histories that also *process* the series in place (TimeSeries.modify): the lazily cached array of absolute date-times
 must keep describing the samples the series holds.
 
-Clause (property statement, observed at dtg_time / dtg_start / dtg_end): for a series with a date-time reference, dtg_time is
-reference + relative time of every sample it holds, start / end instants are the first / last of them — after any history of
-reads, re-referencing, copies and in-place processing (window / resampling).  Input kind "proc".  Found F54 on the unchanged
-tree (modify kept the cache of the former time array; fixed).
+Clauses (property statement, observed at dtg_time / dtg_start / dtg_end / dtg_ref / t): for a series with a date-time reference,
+dtg_time is reference + relative time of every sample it holds, start / end instants are the first / last of them — after any
+history of reads, re-referencing, copies and in-place processing; the instants shown are the same before and after re-referencing
+and copying; a series built from date-time stamps shows these stamps; a call that raised left reference and relative times alone;
+an operation on one series moves no instant of another one.
+
+Input kinds
+  "proc"      one series (uniformly or IRREGULARLY sampled; floats + reference, datetime stamps or numpy datetime64 stamps) and a
+              history over {read, re-reference, copy, modify(...)} where modify takes EVERY kind of option and combination (twin as
+              tuple / list / ndarray, resample step as float / numpy.float64 / numpy.float32, resample to a given array or list,
+              filterargs lp / hp / bp / bs / tp as tuple or list, window_len (+ window), taperfrac), + REJECTED calls of every kind the
+              entry points can reject (unknown filter name, wrong arity / type, cut-off beyond Nyquist, integer / tuple / zero /
+              negative resample, array out of range, twin + array, empty window + resample, unknown keyword, unknown / too long
+              smoothing window, invalid reference, also rejected PART-WAY: valid window / resampling followed by an invalid filter)
+              after which the SAME object is used again.  "lazy" histories look at dtg_time only at read steps and at the end.
+  "procpair"  two series built from one time array, operations addressed to either; a modify(resample=<array>) hands the SAME
+              caller's array to both (F55: the series then shared their time array); after every step the other series must have
+              kept reference and relative times, and every array the caller passed (constructor, twin, resample) must be unchanged.
+Every history runs in a worker thread with a time limit (a call that does not return is a failing clause).
+Found F54 on the unchanged tree (modify kept the cache of the former time array; fixed) and F55 (fixed).
 """
-from datetime import datetime, timedelta
+import threading
+import warnings
+from datetime import date, datetime, timedelta
 
 from fractions import Fraction
 
@@ -17,37 +35,103 @@ from .. import core
 EPOCH = datetime(2020, 1, 1)
 REF0 = datetime(2020, 3, 1, 12, 0, 0)
 TOL = 2e-6
+TIME_LIMIT = 10.0       # seconds for one whole history (each takes milliseconds)
+
+REJECTS = ("filter_name", "filter_len", "filter_type", "filter_freq", "filter_tp", "resample_int", "resample_tuple", "resample_out",
+           "resample_zero", "resample_neg", "twin_array", "twin_empty", "twin_short", "kw", "window_name", "window_long",
+           "ref_str", "ref_np64", "ref_date", "twin_then_filter_name", "resample_then_filter_name", "array_then_filter_len",
+           "interp_out", "ctor_bad")
+REF_REJECTS = ("ref_str", "ref_np64", "ref_date")
+
+
+# ------------------------------------------------------------------------------------------------------------------------------
+# construction
+# ------------------------------------------------------------------------------------------------------------------------------
+class Ctx(object):
+    """what the caller holds: every array handed to the library (label, object, snapshot) + the array shared by a pair"""
+
+    def __init__(self):
+        self.held = []
+        self.shared = None
+
+    def hold(self, label, arr):
+        if isinstance(arr, np.ndarray):
+            self.held.append((label, arr, arr.copy()))
+        return arr
+
+    def changed(self):
+        out = []
+        for label, arr, was in self.held:
+            try:
+                same = arr.shape == was.shape and bool(np.all(arr == was))
+            except Exception:
+                same = False
+            if not same:
+                out.append((label, was, arr))
+        return out
+
+
+def times(case):
+    n = case["n"]
+    steps = case.get("steps")
+    if steps:
+        inc = [case["dt"] * steps[i % len(steps)] for i in range(n - 1)]
+        return case["t0"] + np.concatenate([[0.0], np.cumsum(inc)])
+    return case["t0"] + case["dt"] * np.arange(n, dtype=float)
+
+
+def build_all(case, ctx=None):
+    """-> list of series (one for "proc", two for "procpair": built from ONE time array object)"""
+    from qats import TimeSeries
+    ctx = ctx or Ctx()
+    t = times(case)
+    n = len(t)
+    nser = 2 if case.get("kind") == "procpair" else 1
+    refs = case.get("refs") or [0] * nser
+    if case["ctor"] in ("stamps", "stamps64"):
+        arr = np.array([REF0 + timedelta(seconds=float(v)) for v in t])
+        if case["ctor"] == "stamps64":
+            arr = arr.astype("datetime64[us]")
+    else:
+        arr = t
+    ctx.hold("the time array given to the constructor", arr)
+    out = []
+    for i in range(nser):
+        x = ctx.hold("the data array given to the constructor", np.array([((7 * k + 3 * i) % 11) - 5.0 for k in range(n)]))
+        if case["ctor"] in ("stamps", "stamps64"):
+            out.append(TimeSeries("s%d" % i if nser > 1 else "s", arr, x,
+                                  dtg_ref=None if refs[i] in (0, None) else REF0 + timedelta(seconds=refs[i])))
+        else:
+            out.append(TimeSeries("s%d" % i if nser > 1 else "s", arr, x, dtg_ref=REF0 + timedelta(seconds=refs[i] or 0)))
+    return out
 
 
 def build(case):
-    from qats import TimeSeries
-    n = case["n"]
-    t = case["t0"] + case["dt"] * np.arange(n, dtype=float)
-    x = np.array([((7 * i) % 11) - 5.0 for i in range(n)])
-    if case["ctor"] == "stamps":
-        stamps = np.array([REF0 + timedelta(seconds=float(v)) for v in t])
-        return TimeSeries("s", stamps, x)
-    return TimeSeries("s", t, x, dtg_ref=REF0)
+    return build_all(case)[0]
 
 
-def clauses(ts, where):
+# ------------------------------------------------------------------------------------------------------------------------------
+# clauses
+# ------------------------------------------------------------------------------------------------------------------------------
+def clauses(ts, where, look=True):
     fails = []
     if ts.dtg_ref is None:
         return fails
     t = np.asarray(ts.t, dtype=float)
     try:
-        dtg = ts.dtg_time
+        dtg = ts.dtg_time if look else None
         ds, de = ts.dtg_start, ts.dtg_end
     except Exception as e:
         return [("dtg_time / dtg_start / dtg_end can be read (%s)" % where, "date-times", type(e).__name__ + ": " + str(e))]
-    if dtg is None or len(dtg) != len(t):
-        fails.append(("dtg_time holds one instant per sample (%s)" % where, len(t), None if dtg is None else len(dtg)))
-        return fails
-    for i in range(len(t)):
-        want = ts.dtg_ref + timedelta(seconds=float(t[i]))
-        if abs((dtg[i] - want).total_seconds()) > TOL:
-            fails.append(("dtg_time is reference + relative time of every sample (%s)" % where, [i, str(want)], [i, str(dtg[i])]))
-            break
+    if look:
+        if dtg is None or len(dtg) != len(t):
+            fails.append(("dtg_time holds one instant per sample (%s)" % where, len(t), None if dtg is None else len(dtg)))
+            return fails
+        for i in range(len(t)):
+            want = ts.dtg_ref + timedelta(seconds=float(t[i]))
+            if abs((dtg[i] - want).total_seconds()) > TOL:
+                fails.append(("dtg_time is reference + relative time of every sample (%s)" % where, [i, str(want)], [i, str(dtg[i])]))
+                break
     if len(t):
         for name, got, want in (("dtg_start", ds, ts.dtg_ref + timedelta(seconds=float(t[0]))),
                                 ("dtg_end", de, ts.dtg_ref + timedelta(seconds=float(t[-1])))):
@@ -56,8 +140,140 @@ def clauses(ts, where):
     return fails
 
 
-def apply(ts, op):
-    """-> (new current series, note)"""
+def instants(ts):
+    """reference + relative time of every sample, computed here"""
+    if ts.dtg_ref is None:
+        return None
+    return [ts.dtg_ref + timedelta(seconds=float(v)) for v in ts.t]
+
+
+def far(a, b):
+    if a is None or b is None:
+        return not (a is None and b is None)
+    if len(a) != len(b):
+        return True
+    return any(abs((p - q).total_seconds()) > TOL for p, q in zip(a, b))
+
+
+def brief(a, k=4):
+    if a is None:
+        return None
+    a = list(a)
+    return [str(v) for v in a[:k]] + (["... (%d)" % len(a)] if len(a) > k else [])
+
+
+# ------------------------------------------------------------------------------------------------------------------------------
+# operations
+# ------------------------------------------------------------------------------------------------------------------------------
+def seq(vals, how):
+    if how == "list":
+        return [float(v) for v in vals]
+    if how == "ndarray":
+        return np.array([float(v) for v in vals])
+    return tuple(float(v) for v in vals)
+
+
+def modify_kwargs(ts, opts, ctx):
+    """keyword arguments of a modify call from their description (fractions of the current time range / Nyquist frequency)"""
+    t = np.asarray(ts.t, dtype=float)
+    t0, span = float(t[0]), float(t[-1] - t[0])
+    kw = {}
+    if "twin" in opts:
+        a, b = opts["twin"][:2]
+        kw["twin"] = ctx.hold("the array given as twin", seq([t0 + a * span, t0 + b * span], opts["twin"][2] if len(opts["twin"]) > 2 else "tuple"))
+    if "resample" in opts:
+        mult = opts["resample"][0]
+        how = opts["resample"][1] if len(opts["resample"]) > 1 else "float"
+        kw["resample"] = {"float": float, "np64": np.float64, "np32": np.float32}[how](float(mult) * float(t[1] - t[0]))
+    if "resample_arr" in opts:
+        f0, f1, m, how = opts["resample_arr"][:4]
+        if len(opts["resample_arr"]) > 4 and ctx.shared is not None:
+            arr = ctx.shared
+        else:
+            if how == "view":
+                big = np.zeros(2 * m)
+                big[::2] = np.linspace(t0 + f0 * span, t0 + f1 * span, m)
+                arr = big[::2]
+            else:
+                arr = np.linspace(t0 + f0 * span, t0 + f1 * span, m)
+            ctx.hold("the array given as resample", arr)
+            if len(opts["resample_arr"]) > 4:
+                ctx.shared = arr
+        kw["resample"] = [float(v) for v in arr] if how == "list" else arr
+    if "filter" in opts:
+        f = list(opts["filter"])
+        nyq = 0.5 / float(np.mean(np.diff(t)))
+        args = [f[0]] + ([tuple(f[1])] if f[0] == "tp" else [v * nyq for v in f[1:]])
+        kw["filterargs"] = list(args) if opts.get("filter_as") == "list" else tuple(args)
+    for k in ("window_len", "window", "taperfrac"):
+        if k in opts:
+            kw[k] = opts[k]
+    return kw
+
+
+def reject_call(ts, kind, ctx):
+    """a call the entry point cannot serve (most raise; the ones that do not are ordinary operations)"""
+    from qats import TimeSeries
+    t = np.asarray(ts.t, dtype=float)
+    t0, t1 = float(t[0]), float(t[-1])
+    span, d = t1 - t0, float(t[1] - t[0])
+    nyq = 0.5 / float(np.mean(np.diff(t)))
+    win = (t0 + 0.125 * span, t0 + 0.875 * span)
+    if kind == "filter_name":
+        ts.modify(filterargs=("xx", 0.25 * nyq))
+    elif kind == "filter_len":
+        ts.modify(filterargs=("lp",))
+    elif kind == "filter_type":
+        ts.modify(filterargs="lp")
+    elif kind == "filter_freq":
+        ts.modify(filterargs=("lp", 8.0 * nyq))
+    elif kind == "filter_tp":
+        ts.modify(filterargs=("tp", 0.5))
+    elif kind == "resample_int":
+        ts.modify(resample=2)
+    elif kind == "resample_tuple":
+        ts.modify(resample=(t0, t0 + 0.5 * span, t1))
+    elif kind == "resample_out":
+        ts.modify(resample=ctx.hold("the array given as resample", np.linspace(t0 - span, t1 + span, 7)))
+    elif kind == "resample_zero":
+        ts.modify(resample=0.0)
+    elif kind == "resample_neg":
+        ts.modify(resample=-d)
+    elif kind == "twin_array":
+        ts.modify(twin=win, resample=ctx.hold("the array given as resample", np.linspace(win[0], win[1], 5)))
+    elif kind == "twin_empty":
+        ts.modify(twin=(t1 + span + 1.0, t1 + 2 * span + 2.0), resample=d)
+    elif kind == "twin_short":
+        ts.modify(twin=(t0,))
+    elif kind == "kw":
+        ts.modify(nonsense=1)
+    elif kind == "window_name":
+        ts.modify(window_len=3, window="nope")
+    elif kind == "window_long":
+        ts.modify(window_len=len(t) + 5)
+    elif kind == "ref_str":
+        ts.set_dtg_ref("2020-01-01 00:00:00")
+    elif kind == "ref_np64":
+        ts.set_dtg_ref(np.datetime64("2020-01-01T00:00:00"))
+    elif kind == "ref_date":
+        ts.set_dtg_ref(date(2020, 1, 1))
+    elif kind == "twin_then_filter_name":
+        ts.modify(twin=win, filterargs=("nofilter", 0.25 * nyq))
+    elif kind == "resample_then_filter_name":
+        ts.modify(resample=0.5 * d, filterargs=["lowpass", 0.25 * nyq])
+    elif kind == "array_then_filter_len":
+        ts.modify(resample=ctx.hold("the array given as resample", np.linspace(win[0], win[1], 9)), filterargs=("bp", 0.25 * nyq))
+    elif kind == "interp_out":
+        ts.interpolate(np.array([t0 - 1.0 - span, t1 + 1.0 + span]))
+    elif kind == "ctor_bad":
+        TimeSeries("bad", ts.t, ts.x, dtg_ref="2020-01-01")
+    else:
+        raise KeyError("unknown rejected-call kind " + str(kind))
+
+
+def apply(ts, op, ctx=None):
+    """-> the series the history continues with (the copy after a copy step)"""
+    ctx = ctx or Ctx()
     kind = op[0]
     if kind == "read":
         _ = ts.dtg_time
@@ -66,26 +282,102 @@ def apply(ts, op):
         ts.modify(twin=(a, b))
     elif kind == "resample":
         ts.modify(resample=float(op[1]) * (ts.t[1] - ts.t[0]))
+    elif kind == "modify":
+        ts.modify(**modify_kwargs(ts, op[1], ctx))
+    elif kind == "reject":
+        reject_call(ts, op[1], ctx)
     elif kind == "setref":
         ts.set_dtg_ref(REF0 + timedelta(seconds=op[1]))
     elif kind == "setstart":
         ts.set_dtg_ref()
     elif kind == "copy":
         return ts.copy()
+    else:
+        raise KeyError("unknown operation " + str(kind))
     return ts
 
 
-def gen_ops(rng, nops):
+def regrids(op, uniform):
+    """does this operation put the series on a new time grid (beyond dropping samples)?"""
+    if op[0] == "resample":
+        return True
+    if op[0] == "modify":
+        o = op[1]
+        return "resample" in o or "resample_arr" in o or ("filter" in o and not uniform)
+    return False
+
+
+def keep_mask(ts, op):
+    """samples a time-preserving processing step retains (None: not a processing step)"""
+    t = np.asarray(ts.t, dtype=float)
+    if op[0] == "window":
+        a, b = t[0] + op[1] * (t[-1] - t[0]), t[0] + op[2] * (t[-1] - t[0])
+    elif op[0] == "modify" and "twin" in op[1]:
+        a, b = float(t[0]) + op[1]["twin"][0] * float(t[-1] - t[0]), float(t[0]) + op[1]["twin"][1] * float(t[-1] - t[0])
+    elif op[0] == "modify":
+        return [True] * len(t)
+    else:
+        return None
+    return [bool(a <= v <= b) for v in t]
+
+
+# ------------------------------------------------------------------------------------------------------------------------------
+# generators
+# ------------------------------------------------------------------------------------------------------------------------------
+def gen_modify(rng, irregular):
+    """description of a modify call: every kind of option, alone and combined"""
+    o = {}
+    r = rng.random()
+    if r < 0.16:
+        kinds = ["twin"]
+    elif r < 0.28:
+        kinds = ["resample"]
+    elif r < 0.38:
+        kinds = ["resample_arr"]
+    elif r < 0.66 or (irregular and r < 0.76):
+        kinds = ["filter"]
+    elif r < 0.8:
+        kinds = [rng.choice(["window_len", "taperfrac"])]
+    else:
+        kinds = rng.sample(["twin", "resample", "filter", "window_len", "taperfrac"], rng.choice([2, 2, 3]))
+        if rng.random() < 0.2:
+            kinds = [k for k in kinds if k not in ("twin", "resample")] + ["resample_arr"]
+    for k in kinds:
+        if k == "twin":
+            o["twin"] = [rng.choice([0.0, 0.0, 0.125, 0.25]), rng.choice([0.75, 0.875, 1.0, 1.0]), rng.choice(["tuple", "list", "ndarray"])]
+        elif k == "resample":
+            o["resample"] = [rng.choice([0.5, 1, 2]), rng.choice(["float", "np64", "np32"])]
+        elif k == "resample_arr":
+            o["resample_arr"] = [rng.choice([0.0, 0.125]), rng.choice([1.0, 0.875]), rng.choice([5, 12, 30]), rng.choice(["ndarray", "list", "view"])]
+        elif k == "filter":
+            f = rng.choice(["lp", "lp", "hp", "bp", "bs", "tp"])
+            o["filter"] = [f, [0.125, 1.0]] if f == "tp" else [f, rng.choice([0.125, 0.25, 0.5])] if f in ("lp", "hp") else [f, 0.125, 0.5]
+            o["filter_as"] = rng.choice(["tuple", "list"])
+        elif k == "window_len":
+            o["window_len"] = rng.choice([3, 4, 5, 7])
+            if rng.random() < 0.3:
+                o["window"] = rng.choice(["hanning", "bartlett", "rectangular"])
+        elif k == "taperfrac":
+            o["taperfrac"] = rng.choice([0.01, 0.1, 0.5])
+    return o
+
+
+def gen_ops(rng, nops, irregular=False, rich=True):
     ops = []
     for _ in range(nops):
         r = rng.random()
-        if r < 0.3:
+        if r < 0.22:
             ops.append(["read"])
-        elif r < 0.55:
-            a = rng.choice([0.0, 0.125, 0.25, 0.5])
-            ops.append(["window", a, rng.choice([0.75, 0.875, 1.0])])
-        elif r < 0.7:
+        elif not rich and r < 0.47:
+            ops.append(["window", rng.choice([0.0, 0.125, 0.25, 0.5]), rng.choice([0.75, 0.875, 1.0])])
+        elif not rich and r < 0.62:
             ops.append(["resample", rng.choice([0.5, 2, 1])])
+        elif r < 0.3:
+            ops.append(["window", rng.choice([0.0, 0.125, 0.25]), rng.choice([0.75, 0.875, 1.0])])
+        elif r < 0.58:
+            ops.append(["modify", gen_modify(rng, irregular)])
+        elif r < 0.7:
+            ops.append(["reject", rng.choice(REJECTS)])
         elif r < 0.8:
             ops.append(["setref", rng.choice([-64, 0, 16, 3600])])
         elif r < 0.9:
@@ -95,27 +387,216 @@ def gen_ops(rng, nops):
     return ops
 
 
-def play(case):
+IRREGULAR = ([1, 1, 1.25, 2, 0.75], [1, 0.5, 1.5], [1, 1, 1, 2], [0.75, 1.25, 1, 1, 2, 1, 0.5])
+
+
+def gen_case(rng, rich=True):
+    irregular = rich and rng.random() < 0.5
+    case = dict(kind="proc", ctor=rng.choice(["float", "stamps", "stamps64"] if rich else ["float", "stamps"]),
+                n=rng.choice([rng.randint(8, 40), rng.randint(40, 90)]) if rich else rng.randint(8, 40),
+                t0=rng.choice([0.0, -3.0, 100.0]), dt=rng.choice([1.0, 0.5, 0.25, 2.0]))
+    if irregular:
+        case["steps"] = list(rng.choice(IRREGULAR))
+    case["ops"] = gen_ops(rng, rng.randint(2, 7 if rich else 6), irregular, rich)
+    if rich and rng.random() < 0.25:
+        case["lazy"] = True
+    return case
+
+
+def gen_pair(rng):
+    irregular = rng.random() < 0.4
+    case = dict(kind="procpair", ctor=rng.choice(["float", "float", "stamps", "stamps64"]), n=rng.choice([12, 25, 48, 70]),
+                t0=rng.choice([0.0, -3.0, 100.0]), dt=rng.choice([1.0, 0.5, 0.25, 2.0]), refs=rng.choice([[0, 0], [0, 3600], [0, -64]]))
+    if case["ctor"] != "float" and rng.random() < 0.6:
+        case["refs"] = [0, 0]
+    if irregular:
+        case["steps"] = list(rng.choice(IRREGULAR))
+    ops = []
+    if rng.random() < 0.7:
+        # the same caller's array for both series (each spelled its own way), directly or after a look at the date-times
+        spec = [rng.choice([0.0, 0.125]), rng.choice([1.0, 0.875]), rng.choice([5, 12, 30])]
+        if rng.random() < 0.4:
+            ops.append([rng.randrange(2), ["read"]])
+        first = rng.randrange(2)
+        ops.append([first, ["modify", {"resample_arr": spec + [rng.choice(["ndarray", "ndarray", "view"]), "shared"]}]])
+        ops.append([1 - first, ["modify", {"resample_arr": spec + [rng.choice(["ndarray", "ndarray", "list"]), "shared"]}]])
+    for op in gen_ops(rng, rng.randint(2, 6), irregular):
+        ops.append([rng.randrange(2), op])
+    case["ops"] = ops
+    return case
+
+
+FIXED = [
+    dict(kind="proc", ctor="float", n=10, t0=0.0, dt=1.0, ops=[["read"], ["window", 0.25, 0.75], ["read"]]),
+    dict(kind="proc", ctor="stamps", n=12, t0=0.0, dt=0.5, ops=[["window", 0.25, 1.0], ["setstart"], ["read"]]),
+    dict(kind="proc", ctor="float", n=16, t0=-3.0, dt=0.25, ops=[["read"], ["resample", 2], ["setref", 16], ["copy"], ["window", 0.0, 0.5]]),
+    # every kind of option once on a uniformly and once on an irregularly sampled series, each after a look at the date-times
+    dict(kind="proc", ctor="float", n=48, t0=0.0, dt=0.5, ops=[["read"], ["modify", {"filter": ["lp", 0.25]}], ["read"], ["setstart"]]),
+    dict(kind="proc", ctor="float", n=48, t0=0.0, dt=0.5, steps=[1, 1, 1.25, 2, 0.75],
+         ops=[["read"], ["modify", {"filter": ["lp", 0.25]}], ["read"], ["setref", 16], ["copy"]]),
+    dict(kind="proc", ctor="stamps", n=60, t0=0.0, dt=1.0, steps=[1, 0.5, 1.5],
+         ops=[["modify", {"filter": ["bp", 0.125, 0.5], "filter_as": "list", "taperfrac": 0.1}], ["copy"], ["setstart"]]),
+    dict(kind="proc", ctor="stamps64", n=40, t0=100.0, dt=0.25, steps=[1, 1, 1, 2],
+         ops=[["modify", {"filter": ["hp", 0.25], "window_len": 5}], ["setref", -64]]),
+    dict(kind="proc", ctor="stamps", n=30, t0=0.0, dt=1.0, steps=[1, 1, 1, 2], ops=[["modify", {"window_len": 5}], ["modify", {"taperfrac": 0.1}],
+                                                                                   ["modify", {"filter": ["tp", [0.125, 1.0]]}]]),
+    dict(kind="proc", ctor="float", n=30, t0=0.0, dt=1.0, ops=[["read"], ["modify", {"resample_arr": [0.125, 0.875, 12, "ndarray"]}], ["setstart"],
+                                                               ["modify", {"resample": [0.5, "np32"], "twin": [0.0, 0.75, "ndarray"]}]]),
+    dict(kind="proc", ctor="stamps", n=44, t0=0.0, dt=1.0, steps=[1, 1, 1.25, 2, 0.75],
+         ops=[["reject", "filter_name"], ["reject", "twin_then_filter_name"], ["modify", {"filter": ["lp", 0.25]}], ["reject", "ref_str"],
+              ["reject", "resample_out"], ["setstart"]]),
+    dict(kind="procpair", ctor="float", n=20, t0=0.0, dt=1.0, refs=[0, 0],
+         ops=[[0, ["modify", {"resample_arr": [0.0, 1.0, 12, "ndarray", "shared"]}]], [1, ["modify", {"resample_arr": [0.0, 1.0, 12, "ndarray", "shared"]}]],
+              [0, ["setref", 16]], [1, ["read"]], [1, ["setstart"]]]),
+    dict(kind="procpair", ctor="stamps", n=20, t0=0.0, dt=0.5, refs=[0, 3600], steps=[1, 0.5, 1.5],
+         ops=[[1, ["read"]], [1, ["modify", {"resample_arr": [0.125, 0.875, 5, "view", "shared"]}]],
+              [0, ["modify", {"resample_arr": [0.125, 0.875, 5, "list", "shared"]}]], [1, ["setstart"]], [0, ["setref", -64]]]),
+]
+
+
+# ------------------------------------------------------------------------------------------------------------------------------
+# one history
+# ------------------------------------------------------------------------------------------------------------------------------
+def norm_ops(case):
+    if case.get("kind") == "procpair":
+        return [(int(i), op) for i, op in case["ops"]]
+    return [(0, op) for op in case["ops"]]
+
+
+def play_inner(case, progress):
     fails = []
+    ctx = Ctx()
+    lazy = bool(case.get("lazy"))
     try:
-        ts = build(case)
+        cur = build_all(case, ctx)
     except Exception as e:
         return [("the series can be constructed", "series", type(e).__name__ + ": " + str(e))]
-    fails += clauses(ts, "after construction")
-    for k, op in enumerate(case["ops"]):
-        if len(ts.t) < 4:
-            break
+    for i, ts in enumerate(cur):
+        fails += clauses(ts, "s%d after construction" % i, look=not lazy)
+        if case["ctor"] in ("stamps", "stamps64") and not lazy:
+            stamps = [REF0 + timedelta(seconds=float(v)) for v in times(case)]
+            if far(list(ts.dtg_time), stamps):
+                fails.append(("built from date-time stamps: dtg_time shows the stamps it was constructed from", brief(stamps), brief(ts.dtg_time)))
+    left = []
+    regridded = set()       # series that were put on a regular grid by an earlier processing step
+    for k, (i, op) in enumerate(norm_ops(case)):
+        if i >= len(cur) or len(cur[i].t) < 4:
+            continue
+        ts = cur[i]
+        where = "after operation %d %s%s" % (k + 1, "" if len(cur) == 1 else "on s%d " % i, op)
+        progress.append(where)
+        others = [("s%d" % j, o) for j, o in enumerate(cur) if j != i] + left
+        before = [(o.dtg_ref, np.array(o.t, dtype=float, copy=True)) for _, o in others]
+        pre_ref, pre_t = ts.dtg_ref, np.array(ts.t, dtype=float, copy=True)
+        pre_abs = instants(ts)
+        mask = keep_mask(ts, op)
+        uniform = not case.get("steps") or i in regridded
+        err = None
         try:
-            ts = apply(ts, op)
+            with warnings.catch_warnings():
+                warnings.simplefilter("ignore")
+                with np.errstate(all="ignore"):
+                    new = apply(ts, op, ctx)
         except Exception as e:
-            fails.append(("operation %d %s succeeds" % (k + 1, op), "no exception", type(e).__name__ + ": " + str(e)))
-            break
-        fails += clauses(ts, "after operation %d %s" % (k + 1, op))
+            err, new = e, ts
+        if err is not None:
+            if op[0] not in ("reject", "modify"):
+                fails.append(("operation %d %s succeeds" % (k + 1, op), "no exception", type(err).__name__ + ": " + str(err)))
+                break
+            # a call that raised: the same object is used again, its instants are what they were
+            if ts.dtg_ref != pre_ref or not np.array_equal(np.asarray(ts.t, dtype=float), pre_t):
+                fails.append(("a call that raised (%s) leaves reference and relative times -- the instant of every sample -- untouched (%s)"
+                              % (type(err).__name__, where), [str(pre_ref), brief(pre_t)], [str(ts.dtg_ref), brief(ts.t)]))
+        else:
+            if op[0] == "reject" and op[1] in REF_REJECTS:
+                fails.append(("an invalid reference (not a datetime) is rejected (%s)" % where, "ValueError", "accepted"))
+            if op[0] == "copy":
+                left.append(("s%d before operation %d" % (i, k + 1), ts))
+                others.append(left[-1])
+                before.append((pre_ref, pre_t))
+            cur[i] = ts = new
+            post_abs = instants(ts)
+            if op[0] in ("setref", "setstart", "copy", "read"):
+                if far(pre_abs, post_abs):
+                    fails.append(("reference + relative time of every sample is the same before and after %s (%s)" % (
+                        {"copy": "copying", "read": "reading dtg_time"}.get(op[0], "re-referencing"), where), brief(pre_abs), brief(post_abs)))
+                if op[0] == "setref" and ts.dtg_ref != REF0 + timedelta(seconds=op[1]):
+                    fails.append(("after set_dtg_ref(x) the reference is x (%s)" % where, str(REF0 + timedelta(seconds=op[1])), str(ts.dtg_ref)))
+                if op[0] == "setstart" and (float(ts.t[0]) != 0.0 or abs((ts.dtg_ref - pre_abs[0]).total_seconds()) > TOL):
+                    fails.append(("re-referencing to the series start: first relative time 0, reference = old start instant (%s)" % where,
+                                  [0.0, str(pre_abs[0])], [float(ts.t[0]), str(ts.dtg_ref)]))
+            elif mask is not None and not regrids(op, uniform):
+                # processing that only drops samples / changes values: the retained samples keep their instants
+                want = [a for a, m in zip(pre_abs, mask) if m]
+                if ts.dtg_ref != pre_ref or far(want, post_abs):
+                    fails.append(("a time window / filter on a regular grid / smoothing / tapering keeps the instants of the retained samples (%s)"
+                                  % where, brief(want), brief(post_abs)))
+            if regrids(op, uniform):
+                regridded.add(i)
+        if not lazy or op[0] == "read":
+            fails += clauses(ts, where)
+        else:
+            fails += clauses(ts, where, look=False)
+        for (label, o), b in zip(others, before):
+            if o.dtg_ref != b[0] or not np.array_equal(np.asarray(o.t, dtype=float), b[1]):
+                fails.append(("reference + relative time of every sample of a series is the same before and after an operation on ANOTHER "
+                              "series (built from the same time array / processed with the same caller's array / its copy) (%s)" % where,
+                              dict(series=label, ref=str(b[0]), t=brief(b[1])), dict(series=label, ref=str(o.dtg_ref), t=brief(o.t))))
+            elif not lazy:
+                fails += clauses(o, "%s, %s" % (label, where))
+        for label, was, arr in ctx.changed():
+            fails.append(("%s is the caller's: no later operation on a series changes it (%s)" % (label, where), brief(was), brief(arr)))
         if fails:
             break
+    if not fails:
+        for i, ts in enumerate(cur):
+            fails += clauses(ts, "s%d at the end of the history" % i)
+            if not fails and ts.dtg_ref is not None:
+                # what the user reads now survives copying and re-referencing (the clauses of the property, once more at the end)
+                try:
+                    shown = list(ts.dtg_time)
+                    c = ts.copy()
+                    if far(shown, list(c.dtg_time)):
+                        fails.append(("the instants shown by dtg_time are the same before and after copying (s%d at the end of the history)" % i,
+                                      brief(shown), brief(c.dtg_time)))
+                    c.set_dtg_ref(c.dtg_ref - timedelta(hours=1))
+                    if far(shown, list(c.dtg_time)):
+                        fails.append(("the instants shown by dtg_time are the same before and after re-referencing (s%d at the end of the history)" % i,
+                                      brief(shown), brief(c.dtg_time)))
+                    if len(ts.t):
+                        ts.set_dtg_ref()
+                        if far(shown, list(ts.dtg_time)):
+                            fails.append(("the instants shown by dtg_time are the same before and after re-referencing to the start (s%d at the end "
+                                          "of the history)" % i, brief(shown), brief(ts.dtg_time)))
+                except Exception as e:
+                    fails.append(("copying and re-referencing succeed at the end of the history (s%d)" % i, "no exception",
+                                  type(e).__name__ + ": " + str(e)))
     return fails
 
 
+def play(case, limit=TIME_LIMIT):
+    """the history in a worker thread: a call that does not return is a failing clause, never a hanging check"""
+    box, progress = {}, []
+
+    def work():
+        try:
+            box["fails"] = play_inner(case, progress)
+        except BaseException as e:            # harness-side surprise: reported, never a crash
+            box["fails"] = [("the history can be evaluated (%s)" % (progress[-1] if progress else "construction"), "clauses evaluated",
+                             type(e).__name__ + ": " + str(e))]
+
+    th = threading.Thread(target=work, daemon=True)
+    th.start()
+    th.join(limit)
+    if th.is_alive():
+        return [("every call of the history returns (time limit %g s; %s)" % (limit, progress[-1] if progress else "construction"),
+                 "returns", "still running")]
+    return box["fails"]
+
+
+# ------------------------------------------------------------------------------------------------------------------------------
+# correspondence with the Lean model (Qats.Dtg.runX)
+# ------------------------------------------------------------------------------------------------------------------------------
 def secs(d):
     """datetime -> exact seconds since EPOCH (microsecond resolution)"""
     td = d - EPOCH
@@ -133,57 +614,78 @@ def observed_state(ts):
 
 
 def model_case(case):
-    """-> (model line, list of observed states) for the histories the Lean model covers (no resampling), or None"""
-    if any(op[0] == "resample" for op in case["ops"]):
+    """-> (model line, list of observed states) for the part of the history the Lean model covers: up to the first operation that
+    puts the series on a new grid (resampling; filtering an irregularly sampled series).  Processing that keeps the grid (window,
+    filter on a regular grid, smoothing, tapering) is the model's `keep:<mask>`; a call that raised is no operation."""
+    if case.get("kind") != "proc":
         return None
+    ctx = Ctx()
     ts = build(case)
-    kind = "S" if case["ctor"] == "stamps" else "F"
-    if kind == "S":
+    if case["ctor"] != "float":
         first = [core.rat(secs(v)) for v in ts.dtg_time]
         head = "dtg.runx S - %s |" % " ".join(first)
     else:
         head = "dtg.runx F %s %s |" % (core.rat(secs(REF0)), " ".join(core.rat(Fraction(float(v))) for v in ts.t))
     obs, toks = [observed_state(ts)], []
+    uniform = not case.get("steps")
     for op in case["ops"]:
-        if len(ts.t) < 4:
+        if len(ts.t) < 4 or regrids(op, uniform):
             break
-        if op[0] == "window":
-            a, b = ts.t[0] + op[1] * (ts.t[-1] - ts.t[0]), ts.t[0] + op[2] * (ts.t[-1] - ts.t[0])
-            toks.append("keep:" + "".join("1" if (a <= v <= b) else "0" for v in ts.t))
+        tok = None
+        if op[0] in ("window", "modify"):
+            tok = "keep:" + "".join("1" if m else "0" for m in keep_mask(ts, op))
         elif op[0] == "read":
-            toks.append("read")
+            tok = "read"
         elif op[0] == "setref":
-            toks.append("set:" + core.rat(secs(REF0 + timedelta(seconds=op[1]))))
+            tok = "set:" + core.rat(secs(REF0 + timedelta(seconds=op[1])))
         elif op[0] == "setstart":
-            toks.append("set:-")
+            tok = "set:-"
         elif op[0] == "copy":
-            toks.append("copy")
+            tok = "copy"
         try:
-            ts = apply(ts, op)
+            with warnings.catch_warnings():
+                warnings.simplefilter("ignore")
+                with np.errstate(all="ignore"):
+                    ts = apply(ts, op, ctx)
         except Exception as e:
+            if op[0] in ("reject", "modify"):
+                continue                # a rejected call: no operation for the model; the next state shows what it left behind
             obs.append("exception " + type(e).__name__)
+            toks.append(tok)
             break
+        if tok is None:                 # a "rejected" kind that the entry point served after all: outside the model
+            break
+        toks.append(tok)
         obs.append(observed_state(ts))
     return head + " " + " ".join(toks), obs
 
 
 def run_proc(chk, drv=None):
     rng = chk.rng
-    cases = [dict(kind="proc", ctor="float", n=10, t0=0.0, dt=1.0, ops=[["read"], ["window", 0.25, 0.75], ["read"]]),
-             dict(kind="proc", ctor="stamps", n=12, t0=0.0, dt=0.5, ops=[["window", 0.25, 1.0], ["setstart"], ["read"]]),
-             dict(kind="proc", ctor="float", n=16, t0=-3.0, dt=0.25, ops=[["read"], ["resample", 2], ["setref", 16], ["copy"], ["window", 0.0, 0.5]])]
+    cases = [c for c in core.load_corpus("C18") if c.get("kind") in ("proc", "procpair")] + [dict(c) for c in FIXED]
+    for _ in range(60 if chk.quick else 1500):
+        cases.append(gen_case(rng, rich=False))
+    for _ in range(260 if chk.quick else 6000):
+        cases.append(gen_case(rng))
     for _ in range(120 if chk.quick else 3000):
-        cases.append(dict(kind="proc", ctor=rng.choice(["float", "stamps"]), n=rng.randint(8, 40), t0=rng.choice([0.0, -3.0, 100.0]),
-                          dt=rng.choice([1.0, 0.5, 0.25, 2.0]), ops=gen_ops(rng, rng.randint(2, 6))))
+        cases.append(gen_pair(rng))
     for case in cases:
-        chk.count("proc.history")
-        chk.dist("proc:" + case["ctor"])
+        stream = "proc.pair" if case["kind"] == "procpair" else "proc.history"
+        chk.count(stream)
+        ops = [op for _, op in norm_ops(case)]
+        chk.dist("%s:%s%s" % (case["kind"], case["ctor"], ":irregular" if case.get("steps") else ""))
+        for op in ops:
+            if op[0] == "modify":
+                chk.dist("proc.modify:" + "+".join(sorted(k for k in op[1] if k not in ("filter_as", "window"))))
+            elif op[0] == "reject":
+                chk.dist("proc.reject:" + op[1])
         fails = play(case)
         for oracle, exp, obs in fails:
             chk.fail(oracle, case, exp, obs, clause="proc")
-        if any(op[0] in ("window", "resample") for op in case["ops"]) and any(op[0] == "read" for op in case["ops"]):
-            chk.nontriv(("proc", case["ctor"], case["n"], str(case["ops"])))
+        if any(op[0] in ("window", "resample", "modify") for op in ops) and any(op[0] == "read" for op in ops):
+            chk.nontriv((case["kind"], case["ctor"], case["n"], str(case.get("steps")), str(case["ops"])))
     chk.sample(dict(stream="proc.history", input=cases[0]))
+    chk.sample(dict(stream="proc.history", input=FIXED[4]))
     # correspondence with the Lean model extended by in-place processing (Qats.Dtg.runX; theorems cache_consistent_processing,
     # processing_keeps_retained_instants): state (reference, relative times, cache, start, end) after every operation
     if drv is not None:
@@ -193,7 +695,7 @@ def run_proc(chk, drv=None):
                 mc = model_case(case)
             except Exception:
                 mc = None           # construction / reading failures are reported by the clauses above
-            if mc is not None:
+            if mc is not None and len(mc[1]) > 1:
                 lines.append(mc[0])
                 obs.append(mc[1])
                 owner.append(case)
